@@ -325,6 +325,71 @@ def c25(ctx):
 
 
 
+def c16_probe_manifest(ctx):
+    """Manifest of the probe crate; for an alternative repository tree a redirected copy."""
+    import shutil
+    chk = ctx.chk
+    src_dir = os.path.join(chk.ROOT, "harness", "c16probe")
+    manifest = os.path.join(src_dir, "Cargo.toml")
+    if chk.REPO != "/repo":
+        alt = os.path.join(chk.WORK, "manifest-c16probe")
+        os.makedirs(alt, exist_ok=True)
+        m = open(manifest).read().replace('"/repo/', '"%s/' % chk.REPO)
+        m = m.replace("[workspace]", '[[bin]]\nname = "c16probe"\npath = "%s"\n\n[workspace]'
+                      % os.path.join(src_dir, "src", "main.rs"))
+        manifest = os.path.join(alt, "Cargo.toml")
+        if not os.path.exists(manifest) or open(manifest).read() != m:
+            open(manifest, "w").write(m)
+    lock = os.path.join(os.path.dirname(manifest), "Cargo.lock")
+    if not os.path.exists(lock):
+        shutil.copy(os.path.join(chk.REPO, "Cargo.lock"), lock)
+    return manifest
+
+
+def c16(ctx):
+    import subprocess
+    chk = ctx.chk
+    legs = [ctx.harness(result="leg-harness.json")]
+    built, skipped = ["native,deflate (main harness)"], []
+    if ctx.replay:
+        return chk.merge(legs)
+    manifest = c16_probe_manifest(ctx)
+    probe_bin = os.path.join(chk.TARGET, "release", "c16probe")
+    for label, feats in C16_FEATURE_SETS:
+        cmd = ["cargo", "build", "--offline", "--release", "--manifest-path", manifest,
+               "--no-default-features"]
+        if feats:
+            cmd += ["--features", ",".join(feats)]
+        r = chk.run(cmd, stdout=subprocess.PIPE, stderr=subprocess.STDOUT, text=True)
+        if r.returncode != 0:
+            if label in C16_OPTIONAL:
+                skipped.append(label)
+                chk.log("[C16] feature set [%s] does not build offline: skipped" % label)
+                continue
+            chk.log(r.stdout[-4000:])
+            raise chk.Inconclusive("C16 probe build failed for feature set [%s]" % label)
+        out = os.path.join(ctx.work, "probe-%s.json" % "".join(c if c.isalnum() else "_" for c in label))
+        if os.path.exists(out):
+            os.remove(out)
+        try:
+            r = chk.run([probe_bin, label, out], stdout=subprocess.PIPE, stderr=subprocess.PIPE,
+                        text=True, timeout=600)
+        except subprocess.TimeoutExpired:
+            raise chk.Inconclusive("C16 probe watchdog fired for feature set [%s]" % label)
+        chk.log(r.stderr.strip()[-500:])
+        if r.returncode != 0 or not os.path.exists(out):
+            raise chk.Inconclusive("C16 probe exited with %s for feature set [%s]" % (r.returncode, label))
+        legs.append(json.load(open(out)))
+        built.append(label)
+    merged = chk.merge(legs)
+    merged["extra"]["feature_sets_checked"] = built
+    merged["extra"]["feature_sets_not_buildable_offline"] = skipped
+    merged["extra"]["feature_sets_not_attempted"] = ["charls", "openjp2", "openjpeg-sys (C/C++ builds)"]
+    if skipped:
+        merged["notes"].append("feature sets that do not build offline (uncovered): %s" % ", ".join(skipped))
+    return merged
+
+
 PROPS = {
     "C01": {"run": simple, "level": "exploration"},
     "C02": {"run": c02, "level": "exploration"},
@@ -336,17 +401,16 @@ PROPS = {
     "C08": {"run": simple, "level": "exploration"},
     "C09": {"run": legs("tables", "files"), "level": "exploration"},
     "C10": {"run": c10, "level": "exploration"},
+    "C11": {"run": simple, "level": "exploration"},
+    "C12": {"run": simple, "level": "exploration"},
     "C13": {"run": c13, "level": "exploration"},
+    "C14": {"run": simple, "level": "exploration"},
+    "C15": {"run": simple, "level": "exploration"},
+    "C16": {"run": c16, "level": "exploration",
+            "assumptions": ["feature sets needing C/C++ toolchains (charls, openjpeg) are not built"]},
+    "C17": {"run": simple, "level": "exploration"},
     "C23": {"run": simple, "level": "exploration"},
     "C24": {"run": c24, "level": "exploration"},
-    "C31": {"run": simple, "level": "exploration"},
-    "C34": {"run": simple, "level": "fault_enumeration"},
-    "C28": {"run": simple, "level": "exploration",
-            "assumptions": ["'supported by the registry' is modelled by an own table over the 7 transfer syntax UIDs the generator uses (cross-checked against the registry at start; a mismatch makes the run inconclusive)"]},
-    "C29": {"run": simple, "level": "exploration",
-            "assumptions": ["requestor and acceptor run in one process over loopback TCP; timeouts (8 s per socket operation, 20 s per hand-shake) make a scenario inconclusive"]},
-    "C26": {"run": c26, "level": "fault_enumeration",
-            "assumptions": ["scaled-down writers (M < 1018) are reachable only through the cfg(dicom_rs_verif) constructor; every scaled-down witness is re-executed at M = 1018 before it counts"]},
     "C25": {"run": c25, "level": "exploration",
             "assumptions": [
                 "well-formed = AE titles / version names without leading or trailing spaces (PS3.8: "
@@ -354,6 +418,8 @@ PROPS = {
                 "PS3.8, Unknown PDU / sub-item types that the library does not decode itself",
                 "a PDU longer than 2^32-1 bytes is not constructible in memory and is not tried",
             ]},
+    "C26": {"run": c26, "level": "fault_enumeration",
+            "assumptions": ["scaled-down writers (M < 1018) are reachable only through the cfg(dicom_rs_verif) constructor; every scaled-down witness is re-executed at M = 1018 before it counts"]},
     "C27": {"run": simple, "level": "fault_enumeration",
             "assumptions": [
                 "the transport only segments/coalesces and may answer Pending; it never fails, reorders or "
@@ -361,6 +427,12 @@ PROPS = {
                 "every PDU of a sequence individually survives write_pdu→read_pdu (else the sequence is "
                 "skipped and counted: that is C25's subject)",
             ]},
+    "C28": {"run": simple, "level": "exploration",
+            "assumptions": ["'supported by the registry' is modelled by an own table over the 7 transfer syntax UIDs the generator uses (cross-checked against the registry at start; a mismatch makes the run inconclusive)"]},
+    "C29": {"run": simple, "level": "exploration",
+            "assumptions": ["requestor and acceptor run in one process over loopback TCP; timeouts (8 s per socket operation, 20 s per hand-shake) make a scenario inconclusive"]},
+    "C31": {"run": simple, "level": "exploration"},
+    "C34": {"run": simple, "level": "fault_enumeration"},
     "C36": {"run": simple, "level": "exploration",
             "assumptions": [
                 "titles are non-empty; socket addresses are those whose std text form is itself lossless "
